@@ -411,6 +411,51 @@ theorem format_media_type (env : Env) (f : Fmt) (e : Err) :
   · show headerMediaType ctSimple = _; decide
 
 
+/-! ### the encoding fallback of `fail` (K06d repair) -/
+
+/-- the error formatted instead has the status the first `Format` call answered with -/
+theorem lemma_plain_status (env : Env) (f : Fmt) (e : Err) :
+    determineStatus f (plainErr env.stText (format env f e).status e) = determineStatus f e := by
+  rw [format_status]
+  unfold determineStatus plainErr
+  cases f.statusRes with
+  | some s => rfl
+  | none => simp [withStatus_outermost]
+
+/-- whether or not the first body encodes, the response `fail` writes carries the documented status … -/
+theorem failResp_status (env : Env) (f : Fmt) (e : Err) : (failResp env f e).status = determineStatus f e := by
+  unfold failResp
+  split
+  · exact format_status env f e
+  · rw [format_status, lemma_plain_status]
+
+/-- … the formatter's media type … -/
+theorem failResp_media_type (env : Env) (f : Fmt) (e : Err) :
+    headerMediaType (failResp env f e).contentType = mediaTypeOf f.kind := by
+  unfold failResp
+  split <;> exact format_media_type env f _
+
+/-- … and a body of the formatter's documented shape with that status -/
+theorem failResp_shape (env : Env) (f : Fmt) (e : Err) :
+    shapeOK f.kind (failResp env f e).status (failResp env f e).body = true := by
+  unfold failResp
+  split <;> exact format_shape env f _
+
+/-- the fallback body always encodes: the error it is made of has no details layer at all -/
+theorem fallback_encodes (stText : Nat → Bytes) (s : Nat) (e : Err) : bodyEncodes (plainErr stText s e) = true := by
+  simp [bodyEncodes, plainErr, Err.withStatus, Err.new, findCap, findCapL]
+
+/-- an error whose details encode is answered by the formatter's own response, unchanged -/
+theorem failResp_encodable (env : Env) (f : Fmt) (e : Err) (h : bodyEncodes e = true) :
+    failResp env f e = format env f e := by
+  simp [failResp, h]
+
+/-- the "handler error" log record carries the status of the response that is written -/
+theorem log_status_is_response_status (env : Env) (cfg : Cfg) (ans : Bytes) (pos : Nat) (call : Call) :
+    (failLog env cfg ans call).status = (fail env cfg ans .recorder pos call).status := by
+  show (format env _ call.err).status = (failResp env _ call.err).status
+  rw [format_status, failResp_status]
+
 /-! ### formatter selection -/
 
 theorem lemma_fallback_candidate (opts : List Opt) : fallbackFmt ∈ candidates opts := by
@@ -603,14 +648,14 @@ theorem lemma_fail_respOK (env : Env) (cfg : Cfg) (ans : Bytes) (w : Wire) (pos 
     respOK (selectFormatter cfg ans) pos call (fail env cfg ans w pos call) = true := by
   unfold fail
   simp only
-  have hst := format_status env (selectFormatter cfg ans) call.err
+  have hst := failResp_status env (selectFormatter cfg ans) call.err
   rw [lemma_determine_doc] at hst
   rw [lemma_overWire w _ _ _ (by rw [hst]; exact hw)]
   simp only [respOK, Bool.and_eq_true]
   refine ⟨⟨⟨⟨?_, ?_⟩, ?_⟩, trivial⟩, ?_⟩
   · simp [hst]
-  · simp [format_media_type]
-  · exact format_shape env _ _
+  · simp [failResp_media_type]
+  · exact failResp_shape env _ _
   · rw [List.all_eq_true]
     intro x hx
     have := List.mem_range.mp hx
@@ -652,8 +697,10 @@ theorem status_agree (env : Env) (cfg : Cfg) (ans : Bytes) (pos : Nat) (call : C
     (fail env cfg ans .recorder pos call).status = (format env f call.err).status ∧
     (format env f call.err).status = docStatus f call := by
   intro f
-  refine ⟨rfl, ?_⟩
-  rw [format_status, lemma_determine_doc]
+  refine ⟨?_, ?_⟩
+  · show (failResp env f call.err).status = _
+    rw [failResp_status, format_status]
+  · rw [format_status, lemma_determine_doc]
 
 /-- … and the status member of the body says the same (RFC 9457: the number; JSON:API: the decimal
     string in every element of `errors`) -/
@@ -662,7 +709,7 @@ theorem body_status_agrees (env : Env) (cfg : Cfg) (ans : Bytes) (pos : Nat) (ca
     ∃ b, (fail env cfg ans .recorder pos call).bodies = [b] ∧
       shapeOK f.kind (fail env cfg ans .recorder pos call).status b = true := by
   intro f
-  exact ⟨(format env f call.err).body, rfl, format_shape env f call.err⟩
+  exact ⟨(failResp env f call.err).body, rfl, failResp_shape env f call.err⟩
 
 /-- Content-Type is the formatter's media type (K06 repaired) -/
 theorem media_type_is_formatters (env : Env) (cfg : Cfg) (ans : Bytes) (pos : Nat) (call : Call) :
@@ -670,7 +717,10 @@ theorem media_type_is_formatters (env : Env) (cfg : Cfg) (ans : Bytes) (pos : Na
     (fail env cfg ans .recorder pos call).contentType = (format env f call.err).contentType ∧
     headerMediaType (fail env cfg ans .recorder pos call).contentType = mediaTypeOf f.kind := by
   intro f
-  exact ⟨rfl, format_media_type env f call.err⟩
+  refine ⟨?_, failResp_media_type env f call.err⟩
+  show (failResp env f call.err).contentType = _
+  unfold failResp format
+  split <;> cases f.kind <;> rfl
 
 /-- the chain is aborted: the flag is set and no position after the failing one is entered -/
 theorem fail_aborts (env : Env) (cfg : Cfg) (ans : Bytes) (w : Wire) (pos : Nat) (call : Call) :
@@ -678,6 +728,13 @@ theorem fail_aborts (env : Env) (cfg : Cfg) (ans : Bytes) (w : Wire) (pos : Nat)
   refine ⟨rfl, ?_⟩
   intro i hi
   have := List.mem_range.mp hi
+  omega
+
+/-- even when nothing can be encoded (a custom formatter whose body never encodes) the chain is aborted -/
+theorem unencodable_formatter_aborts (pos : Nat) : abortOK pos (failUnencodable pos) = true := by
+  simp only [abortOK, failUnencodable, Bool.true_and, List.all_eq_true, decide_eq_true_eq]
+  intro x hx
+  have := List.mem_range.mp hx
   omega
 
 /-- a Content-Type that was already in the header map when the handler failed, or a chain that was
@@ -731,6 +788,17 @@ theorem asis_negotiation_witness :
     (selectFormatter (mkCfg wNeg) "application/vnd.api+json".toList).kind = .jsonapi ∧
     specOK wNeg (some "application/vnd.api+json".toList) 1 wCall
       (fail wEnv (mkCfgAsIs wNeg) "application/vnd.api+json".toList .recorder 1 wCall) = false := by
+  decide
+
+def wNaN : Err := .node { st := some 403, det := some .null, detBad := true } (.own "forbidden".toList) []
+
+/-- K06d, as shipped: `Fail(err)` where `err.Details()` cannot be encoded wrote nothing — the client saw
+    the implicit 200 with an empty body; the repaired `fail` answers 403 with the error text alone -/
+theorem unencodable_details_asis_witness :
+    bodyEncodes wNaN = false ∧
+    specOK [] none 1 (.fail wNaN) (failAsIsK06d wEnv (mkCfg []) [] .recorder 1 (.fail wNaN)) = false ∧
+    (fail wEnv (mkCfg []) [] .recorder 1 (.fail wNaN)).status = 403 ∧
+    specOK [] none 1 (.fail wNaN) (fail wEnv (mkCfg []) [] .recorder 1 (.fail wNaN)) = true := by
   decide
 
 /-- K06c (recorded): over a real connection `FailStatus(204, err)` has no body and `FailStatus(100, err)`
